@@ -891,7 +891,8 @@ PROTEIN = ["GLY", "ALA", "LYS"]
 def mods_case(draw):
     nrexcl = draw(st.integers(0, 3))
     nblocks = draw(st.integers(1, 3))
-    names = draw(st.permutations(PROTEIN + ["RA"]))[:nblocks]
+    # non-protein residues too, among them names that are fragments of amino-acid names (AL, PR, S)
+    names = draw(st.permutations(PROTEIN + ["RA", "AL", "PR", "S"]))[:nblocks]
     blocks = []
     shared = draw(st.permutations(ATOMNAMES))[:3]          # names shared between blocks
     for name in names:
